@@ -16,14 +16,17 @@ OFFS = [60, 0, -270, 330]
 
 
 def source_bytes(kind, seq, pos):
-    """kind T: bracketed text; O: text with explicit, differing UTC offsets; U: Linux utmp records."""
+    """seq: instants in MICROseconds after 2000-01-01T00:00:00Z.
+    kind T: bracketed text (ms resolution); O: text with explicit, differing UTC offsets and a 6-digit
+    fraction; U: Linux utmp records (tv_sec, tv_usec)."""
     if kind == "T":
-        return "s%d.log" % pos, gen.text_log([(E_MS + t, b"m%d-%d" % (pos, j)) for j, t in enumerate(seq)])
+        assert all(t % 1000 == 0 for t in seq)
+        return "s%d.log" % pos, gen.text_log([(E_MS + t // 1000, b"m%d-%d" % (pos, j)) for j, t in enumerate(seq)])
     if kind == "O":
-        lines = [gen.ts_iso_off(E_MS + t, OFFS[(j + pos) % len(OFFS)]) + b" o%d-%d" % (pos, j) for j, t in enumerate(seq)]
+        lines = [gen.ts_iso_off(E_MS + t // 1000, OFFS[(j + pos) % len(OFFS)], us=t % 1000000) + b" o%d-%d" % (pos, j) for j, t in enumerate(seq)]
         return "s%d.txt" % pos, b"\n".join(lines) + b"\n"
     if kind == "U":
-        return "s%d.wtmp" % pos, gen.utmp_file([(gen.EPOCH_2000 + t // 1000, (t % 1000) * 1000, b"%d-%d" % (pos, j)) for j, t in enumerate(seq)])
+        return "s%d.wtmp" % pos, gen.utmp_file([(gen.EPOCH_2000 + t // 1000000, t % 1000000, b"%d-%d" % (pos, j)) for j, t in enumerate(seq)])
     raise ValueError(kind)
 
 
@@ -58,10 +61,12 @@ def run(tier, seed, build=True):
     corpus = Corpus(work)
     try:
         # ---- part A: input enumeration under three canonical schedules ---------------------------------
-        dom = [0, 1000, 1001] if tier == "quick" else [0, 999, 1000, 1001, 2000]
-        seqs = list(nondecreasing(dom, 3 if tier == "quick" else 3))
-        useqs = seqs + [[1000, 0], [1001, 1000, 0], [1000, 0, 1001]]          # record files: stored out of order too
-        oseqs = list(nondecreasing(dom[:3], 2))
+        # instants in microseconds: ties, 1 ms neighbours and (for kinds that can express them) sub-millisecond neighbours
+        dom = [0, 1000000, 1001000] if tier == "quick" else [0, 999000, 1000000, 1001000, 2000000]
+        sub = [0, 1000000, 1000400, 1001000] if tier == "quick" else [0, 999000, 1000000, 1000001, 1000400, 1001000]
+        seqs = list(nondecreasing(dom, 3))
+        useqs = list(nondecreasing(sub, 2)) + list(nondecreasing(dom, 3, 3)) + [[1000000, 0], [1001000, 1000400, 0], [1000400, 0, 1001000]]   # record files: stored out of order too
+        oseqs = list(nondecreasing(sub, 2))
         kindseqs = {"T": seqs, "U": useqs, "O": oseqs}
         cases = []
         kind_pairs = [("T", "T"), ("T", "U"), ("U", "T"), ("U", "U"), ("O", "T"), ("T", "O"), ("O", "O")]
@@ -73,7 +78,7 @@ def run(tier, seed, build=True):
             for s_ in kindseqs[k]:
                 cases.append([(k, s_)])
         if tier == "thorough":
-            small = list(nondecreasing([0, 1000], 2))
+            small = list(nondecreasing([0, 1000000], 2))
             for ka, kb, kc in itertools.product("TU", repeat=3):
                 for sa in small:
                     for sb in small:
@@ -144,15 +149,15 @@ def run(tier, seed, build=True):
 
         # ---- part B: every schedule for tie-heavy configurations ------------------------------------------
         B = {
-            "UU": [("U", [0, 1000]), ("U", [0, 1000])],
-            "TT": [("T", [0, 1000, 1000]), ("T", [1000, 1000])],
-            "TU": [("T", [1000, 1000]), ("U", [1000, 1001])],
-            "UT": [("U", [1000, 0]), ("T", [0, 1000])],
+            "UU": [("U", [0, 1000000]), ("U", [0, 1000000])],
+            "TT": [("T", [0, 1000000, 1000000]), ("T", [1000000, 1000000])],
+            "TU": [("T", [1000000, 1000000]), ("U", [1000000, 1000400])],
+            "UT": [("U", [1000000, 0]), ("T", [0, 1000000])],
         }
         if tier == "thorough":
-            B["UUU"] = [("U", [1000]), ("U", [1000]), ("U", [1000])]
-            B["TUT"] = [("T", [0, 1000]), ("U", [1000]), ("T", [1000])]
-            B["TTT2"] = [("T", [0, 1000]), ("T", [0, 1000]), ("T", [1000])]
+            B["UUU"] = [("U", [1000000]), ("U", [1000000]), ("U", [1000000])]
+            B["TUT"] = [("T", [0, 1000000]), ("U", [1000000]), ("T", [1000000])]
+            B["TTT2"] = [("T", [0, 1000000]), ("T", [0, 1000000]), ("T", [1000000])]
         tot_states = tot_trans = tot_exec = 0
         per_cfg = {}
         for name, case in B.items():
@@ -165,7 +170,11 @@ def run(tier, seed, build=True):
             cfg = sched.Config("B" + name, d, list(oracle.DEC_ARGS) + ["-t", "+00:00"] + [n for _, n, _, _ in srcs], [n for _, n, _, _ in srcs])
             judge = c06.make_judge(expected, 0)
             budget = (30000, 40) if tier == "quick" else (500000, 1800)
-            st, viols = sched.explore(cfg, judge, mode="pruned", max_execs=budget[0], max_wall=budget[1])
+            try:
+                st, viols = sched.explore(cfg, judge, mode="pruned", max_execs=budget[0], max_wall=budget[1])
+            except common.MachineryError as e:
+                res.machinery.append(str(e))
+                continue
             common.log("[C01] part B %-5s %s" % (name, st.as_dict()))
             per_cfg[name] = st.as_dict()
             tot_states += len(st.states)
@@ -185,7 +194,7 @@ def run(tier, seed, build=True):
         # ---- part D: a walked directory lists sources in sorted path order ------------------------------------
         dd = os.path.join(work, "D", "dir")
         os.makedirs(os.path.join(dd, "sub"))
-        files = [("b.wtmp", "U", [0, 1000], 0), ("a.wtmp", "U", [0, 1000], 1), ("sub/c.log", "T", [0, 1000], 2)]
+        files = [("b.wtmp", "U", [0, 1000000], 0), ("a.wtmp", "U", [0, 1000000], 1), ("sub/c.log", "T", [0, 1000000], 2)]
         per = {}
         for rel, k, s_, pos in files:
             _n, data = source_bytes(k, s_, pos)
